@@ -24,7 +24,7 @@ RULES = {
              "summed gradient and its own (layer, filter, bias) state slot to Optimizer::update (R03.3's call-site rule re-run)",
     "R04.5": "every sample of a batch is mapped exactly once (into_par_iter/par_iter . map . collect only; no filter/flat_map/skip)",
 }
-RULES["R04.3"] += " | every per-sample result contributes exactly once to each accumulator on every path through the accumulation loop (first-result assignment or zipped add), whichever way the body is left; no break/return"
+RULES["R04.3"] += " | Tensor::add_inplace, the primitive the sum is built from, adds every element of every rank (R15.1 re-run) | every per-sample result contributes exactly once to each accumulator on every path through the accumulation loop (first-result assignment or zipped add), whichever way the body is left; no break/return"
 ASSUMPTIONS = ["rayon: par_chunks(n) partitions a slice into consecutive chunks of n (last may be shorter), in order; collect of an indexed "
                "parallel iterator preserves order", "numerical equivalence to a reference trainer is not decided"]
 TRUSTED = ["rustc nightly front end", "driver/src/main.rs", "sa/e4.py path enumeration", "sa/e1.py"]
@@ -286,6 +286,19 @@ def r6(ctx):
               "Network::update / Feedback::update hand every parameter tensor with its own gradient and its own (layer, filter, bias) slot to the optimizer (%d facts)" % len(sub.obligations))
 
 
+def sum_primitive(ctx):
+    """the per-sample gradients are summed with Tensor::add_inplace: it must be the element-wise sum over every element of every rank
+    (C15's R15.1 for add_inplace, re-run under this property)"""
+    from . import c15
+    sub = type(ctx)(ctx.prop, ctx.facts)
+    sub.guard("R15.1", "add_inplace", c15.elementwise, sub, "add_inplace", ("Nested", "NestedOptional"))
+    bad = [o for o in sub.obligations if o["status"] != "ok"]
+    for o in bad:
+        ctx.bad("R04.3", "sum-primitive:" + o["instance"], o["key"].split("/", 3)[-1], o["where"], o["detail"])
+    ctx.check("R04.3", "sum-primitive", not bad and len(sub.obligations) >= 4, "gradient-sum-primitive-broken", "src/tensor.rs",
+              "%d rank arms of add_inplace add every element of the other tensor" % len(sub.obligations))
+
+
 def run(ctx):
     ctx.guard("R04.6", "step-plumbing", r6, ctx)
     L = ctx.guard("R04.1", "learn-structure", parts, ctx)
@@ -294,6 +307,7 @@ def run(ctx):
     ctx.guard("R04.1", "batching", r1, ctx, L)
     ctx.guard("R04.2", "update", r2, ctx, L)
     lh = ctx.guard("R04.3", "accumulation", r3, ctx, L)
+    ctx.guard("R04.3", "sum-primitive", sum_primitive, ctx)
     if lh is not None:
         ctx.guard("R04.4", "loss", r4, ctx, L, lh)
     ctx.floor("R04.1", 4, "")
